@@ -1,6 +1,76 @@
-import Driver.Common
-namespace Rtp.Kinds.Vpx
-open Rtp Rtp.Proto
+/-
+  Driver/Kinds/Vpx.lean — case kinds of the VP8/VP9 group (C11, C12, and the VP8/VP9 parts of C08/C09).
 
-def handlers : List (String × Handler) := []
+  Token layouts (mirrored by harness/kinds_vpx.go):
+    vp8md      X N S PID I L T K PictureID TL0PICIDX TID Y KEYIDX          (13 nats)
+    vp8desc    n s pid x  opt(M id)  opt(tl0)  opt(tid y)  opt(keyidx)  ign0 ignX ignTK
+    depobs M   res(bytes) M head tail0 tail1 auxPanic freshSame twinSame
+    c11.dec    vp8desc payload k wire          => res(bytes) vp8md head
+    c11.rt     enable warm calls               => <n> (<m> (bytes res(bytes) vp8md head)*)*
+    c08.vp8    enable calls                    => <n> PayObs*
+    c09.vp8    <n> obytes*                     => <n> (depobs vp8md)*
+-/
+import Driver.Common
+import Rtp.Pred.C11
+namespace Rtp.Kinds.Vpx
+open Rtp Rtp.Proto Rtp.Pred Rtp.Model
+
+def rdDepObs {M} (rdM : Rd M) : Rd (C09.DepObs M) := do
+  let r ← Rd.resC Rd.bytes
+  let m ← rdM
+  let h ← Rd.bool; let t0 ← Rd.bool; let t1 ← Rd.bool; let ap ← Rd.bool
+  let fs ← Rd.bool; let ts ← Rd.bool
+  pure { res := r, md := m, head := h, tail0 := t0, tail1 := t1, auxPanic := ap, freshSame := fs, twinSame := ts }
+
+/-! ### VP8 -/
+
+def rdVP8Md : Rd VP8Packet := do
+  let x ← Rd.u8; let n ← Rd.u8; let s ← Rd.u8; let pid ← Rd.u8
+  let i ← Rd.u8; let l ← Rd.u8; let t ← Rd.u8; let k ← Rd.u8
+  let pic ← Rd.u16; let tl0 ← Rd.u8; let tid ← Rd.u8; let y ← Rd.u8; let kx ← Rd.u8
+  pure { X := x, N := n, S := s, PID := pid, I := i, L := l, T := t, K := k,
+         PictureID := pic, TL0PICIDX := tl0, TID := tid, Y := y, KEYIDX := kx }
+
+def rdVP8Desc : Rd Spec.Rfc7741.Descriptor := do
+  let n ← Rd.bool; let s ← Rd.bool; let pid ← Rd.u8; let x ← Rd.bool
+  let pic ← Rd.opt (do let m ← Rd.bool; let v ← Rd.u16; pure (m, v))
+  let tl0 ← Rd.opt Rd.u8
+  let tid ← Rd.opt (do let t ← Rd.u8; let y ← Rd.bool; pure (t, y))
+  let kx ← Rd.opt Rd.u8
+  let i0 ← Rd.u8; let ix ← Rd.u8; let itk ← Rd.u8
+  pure { n := n, s := s, pid := pid, x := x, picId := pic, tl0 := tl0, tid := tid, keyidx := kx,
+         ign0 := i0, ignX := ix, ignTK := itk }
+
+def c11Dec : Handler :=
+  mkHandler
+    (do let d ← rdVP8Desc; let p ← Rd.bytes; let k ← Rd.nat; let w ← Rd.bytes; pure (d, p, k, w))
+    (do let r ← Rd.resC Rd.bytes; let m ← rdVP8Md; let h ← Rd.bool
+        pure ({ res := r, md := m, head := h } : C11.DecObs))
+    (fun (_, _, k, w) => C11.obsDec w k)
+    (fun (d, p, k, w) o => C11.dec d p k w o)
+    (fun (d, _, _, _) => d.WF)
+
+def rdVP8Frag : Rd C11.FragObs := do
+  let b ← Rd.bytes; let r ← Rd.resC Rd.bytes; let m ← rdVP8Md; let h ← Rd.bool
+  pure { bytes := b, res := r, md := m, head := h }
+
+def c11Rt : Handler :=
+  mkHandler
+    (do let e ← Rd.bool; let w ← Rd.nat; let cs ← rdCalls; pure (e, w, cs))
+    (Rd.list (Rd.list rdVP8Frag))
+    (fun (e, w, cs) => C11.obsRt e w cs)
+    (fun (e, w, cs) o => C11.rt e w cs o)
+
+def c08Vp8 : Handler :=
+  mkHandler (do let e ← Rd.bool; let cs ← rdCalls; pure (e, cs)) rdPayObsList
+    (fun (e, cs) => C11.obsPay e cs)
+    (fun (_, cs) o => C08.histOk false cs o)
+
+def c09Vp8 : Handler :=
+  mkHandler (Rd.list Rd.obytes) (Rd.list (rdDepObs rdVP8Md))
+    (fun is => C11.obsDep {} is)
+    (fun _ o => C09.histOk true o)
+
+def handlers : List (String × Handler) :=
+  [("c11.dec", c11Dec), ("c11.rt", c11Rt), ("c08.vp8", c08Vp8), ("c09.vp8", c09Vp8)]
 end Rtp.Kinds.Vpx
